@@ -1,6 +1,608 @@
 (* C11/Proofs.v — lemmas about the model in Model.v *)
 From OV Require Import Common.Base C11.Model.
 From Coq Require Import ZifyBool ZifyNat ZifyN.
+Ltac Zify.zify_post_hook ::= Z.div_mod_to_equations.
 
-Lemma push_cap b q : r_cap (push b q) = r_cap b.
+(* ================================================================== *)
+(* 1. the backlog ring                                                 *)
+(* ================================================================== *)
+
+Lemma mod_lt2 a c : (0 < c)%nat -> (a < 2 * c)%nat -> (a mod c = if a <? c then a else a - c)%nat.
+Proof.
+  intros Hc Ha. destruct (Nat.ltb_spec a c) as [H|H].
+  - apply Nat.mod_small; exact H.
+  - replace a with ((a - c) + 1 * c)%nat at 1 by lia.
+    rewrite Nat.mod_add by lia. apply Nat.mod_small; lia.
+Qed.
+
+Lemma list_set_length {A} (l : list A) i x : length (list_set l i x) = length l.
+Proof. revert i; induction l as [|h r IH]; intros [|i]; simpl; auto. Qed.
+
+Lemma list_set_nth_eq {A} (l : list A) i x : (i < length l)%nat -> nth_error (list_set l i x) i = Some x.
+Proof. revert i; induction l as [|h r IH]; intros [|i]; simpl; intros H; try lia; auto. apply IH; lia. Qed.
+
+Lemma list_set_nth_neq {A} (l : list A) i j x : i <> j -> nth_error (list_set l i x) j = nth_error l j.
+Proof.
+  revert i j; induction l as [|h r IH]; intros [|i] [|j]; simpl; intros H; try reflexivity; try lia.
+  apply IH; lia.
+Qed.
+
+(* the retained entries, oldest first *)
+Definition retain (c : nat) (l : list req) (q : req) : list req :=
+  if (length l <? c)%nat then l ++ [q] else tl l ++ [q].
+
+(* representation invariant: ring b of capacity c holds exactly the list l, oldest first *)
+Definition ring_inv (c : nat) (b : ring) (l : list req) : Prop :=
+  r_cap b = c /\ (0 < c)%nat /\ length (r_entries b) = c /\ (r_head b < c)%nat /\
+  r_size b = length l /\ (length l <= c)%nat /\
+  forall j, (j < length l)%nat ->
+    nth_error (r_entries b) ((r_head b + c - length l + j) mod c) = nth_error (map Some l) j.
+
+Lemma repeat_nth {A} (x : A) n i : (i < n)%nat -> nth_error (repeat x n) i = Some x.
+Proof. revert i; induction n; intros [|i] H; simpl; try lia; auto. apply IHn; lia. Qed.
+
+Lemma new_ring_inv cap : (0 < cap)%Z -> ring_inv (Z.to_nat cap) (new_ring cap) [].
+Proof.
+  intros H. unfold new_ring. destruct (Z.leb_spec cap 0); [lia|].
+  unfold ring_inv; simpl. rewrite repeat_length. repeat split; try lia.
+Qed.
+
+Lemma push_inv c b l q : ring_inv c b l -> ring_inv c (push b q) (retain c l q).
+Proof.
+  intros (Hcap & Hc & Hlen & Hh & Hsz & Hle & Hnth).
+  unfold ring_inv, push, retain; simpl. rewrite Hcap, Hsz, list_set_length.
+  assert (Hh' : ((r_head b + 1) mod c = if (r_head b + 1 <? c)%nat then r_head b + 1 else 0)%nat).
+  { rewrite mod_lt2 by lia. destruct (Nat.ltb_spec (r_head b + 1) c); lia. }
+  destruct (Nat.ltb_spec (length l) c) as [Hlt|Hge].
+  - (* not full: append *)
+    rewrite app_length; simpl.
+    repeat split; try lia; try (rewrite Hh'; destruct (Nat.ltb_spec (r_head b + 1) c); lia).
+    { intros j Hj. rewrite map_app; simpl.
+      assert (Hidx : (((r_head b + 1) mod c + c - (length l + 1) + j) mod c = (r_head b + c - length l + j) mod c)%nat).
+      { rewrite Hh'. destruct (Nat.ltb_spec (r_head b + 1) c).
+        - f_equal; lia.
+        - replace (0 + c - (length l + 1) + j)%nat with (c - length l - 1 + j)%nat by lia.
+          replace (r_head b + c - length l + j)%nat with ((c - length l - 1 + j) + 1 * c)%nat by lia.
+          rewrite Nat.mod_add by lia. reflexivity. }
+      rewrite Hidx.
+      destruct (Nat.eq_dec j (length l)) as [->|Hne].
+      * replace (r_head b + c - length l + length l)%nat with (r_head b + 1 * c)%nat by lia.
+        rewrite Nat.mod_add, Nat.mod_small by lia.
+        rewrite list_set_nth_eq by lia.
+        rewrite nth_error_app2 by (rewrite map_length; lia). rewrite map_length, Nat.sub_diag. reflexivity.
+      * rewrite list_set_nth_neq.
+        -- rewrite Hnth by lia. rewrite nth_error_app1 by (rewrite map_length; lia). reflexivity.
+        -- rewrite mod_lt2 by lia. destruct (Nat.ltb_spec (r_head b + c - length l + j) c); lia. }
+  - (* full: the oldest entry is overwritten *)
+    assert (Hl : length l = c) by lia.
+    destruct l as [|q0 l']; [simpl in *; lia|]. simpl tl. simpl in Hl.
+    rewrite app_length; simpl.
+    repeat split; try lia; try (rewrite Hh'; destruct (Nat.ltb_spec (r_head b + 1) c); lia).
+    { intros j Hj. rewrite map_app; simpl.
+      assert (Hidx : (((r_head b + 1) mod c + c - (length l' + 1) + j) mod c = (r_head b + 1 + j) mod c)%nat).
+      { rewrite Hh'. destruct (Nat.ltb_spec (r_head b + 1) c).
+        - replace (r_head b + 1 + c - (length l' + 1) + j)%nat with (r_head b + 1 + j)%nat by lia. reflexivity.
+        - replace (0 + c - (length l' + 1) + j)%nat with j by lia.
+          replace (r_head b + 1 + j)%nat with (j + 1 * c)%nat by lia. rewrite Nat.mod_add by lia. reflexivity. }
+      rewrite Hidx.
+      destruct (Nat.eq_dec j (length l')) as [->|Hne].
+      * replace (r_head b + 1 + length l')%nat with (r_head b + 1 * c)%nat by lia.
+        rewrite Nat.mod_add, Nat.mod_small by lia.
+        rewrite list_set_nth_eq by lia.
+        rewrite nth_error_app2 by (rewrite map_length; lia). rewrite map_length, Nat.sub_diag. reflexivity.
+      * rewrite list_set_nth_neq.
+        -- specialize (Hnth (S j)). simpl in Hnth.
+           replace (r_head b + c - S (length l') + S j)%nat with (r_head b + 1 + j)%nat in Hnth by lia.
+           rewrite Hnth by lia. rewrite nth_error_app1 by (rewrite map_length; lia). reflexivity.
+        -- rewrite mod_lt2 by lia. destruct (Nat.ltb_spec (r_head b + 1 + j) c); lia. }
+Qed.
+
+(* the list retained after pushing qs in order *)
+Definition retained (c : nat) (qs : list req) : list req := fold_left (retain c) qs [].
+
+Lemma pushes_inv c b l qs : ring_inv c b l -> ring_inv c (fold_left push qs b) (fold_left (retain c) qs l).
+Proof. revert b l; induction qs as [|q qs IH]; simpl; intros b l H; [exact H|]. apply IH, push_inv, H. Qed.
+
+Lemma retained_is_suffix c qs : (0 < c)%nat -> retained c qs = skipn (length qs - c) qs.
+Proof.
+  intros Hc. unfold retained.
+  assert (G : forall qs l pre, l = skipn (length pre - c) pre ->
+            fold_left (retain c) qs l = skipn (length (pre ++ qs) - c) (pre ++ qs)).
+  { clear qs. induction qs as [|q qs IH]; intros l pre Hl; simpl.
+    - rewrite app_nil_r. exact Hl.
+    - replace (pre ++ q :: qs) with ((pre ++ [q]) ++ qs) by (rewrite <- app_assoc; reflexivity).
+      apply IH. subst l. unfold retain. rewrite skipn_length, app_length; simpl.
+      destruct (Nat.ltb_spec (length pre - (length pre - c)) c) as [H|H].
+      + replace (length pre - c)%nat with 0%nat by lia. replace (length pre + 1 - c)%nat with 0%nat by lia.
+        reflexivity.
+      + replace (length pre + 1 - c)%nat with (S (length pre - c)) by lia.
+        rewrite skipn_app. replace (S (length pre - c) - length pre)%nat with 0%nat by lia. simpl skipn at 2.
+        f_equal. clear IH. generalize (length pre - c)%nat as k. intros k.
+        assert (K : forall (A : Type) k (l : list A), tl (skipn k l) = skipn (S k) l).
+        { intros A k0; induction k0; intros [|x r]; simpl; auto. apply (IHk0 r). }
+        apply K. }
+  specialize (G qs [] [] eq_refl). simpl in G. exact G.
+Qed.
+
+Lemma nth_error_skipn {A} k (l : list A) j : nth_error (skipn k l) j = nth_error l (k + j).
+Proof. revert l; induction k; intros [|x r]; simpl; auto. destruct j; reflexivity. Qed.
+Lemma nth_error_firstn {A} n (l : list A) j : (j < n)%nat -> nth_error (firstn n l) j = nth_error l j.
+Proof. revert l j; induction n; intros [|x r] [|j] H; simpl; auto; try lia. apply IHn; lia. Qed.
+
+(* ---------- consecutive sequence numbers ---------- *)
+Definition consec (first : Z) (l : list req) : Prop :=
+  forall j q, nth_error l j = Some q -> Z.of_N (q_seq q) = (first + Z.of_nat j)%Z.
+
+Lemma consec_skipn first l k : consec first l -> consec (first + Z.of_nat k) (skipn k l).
+Proof.
+  intros H j q Hq. rewrite nth_error_skipn in Hq. apply H in Hq. lia.
+Qed.
+
+Definition in_range (from to : Z) (q : req) : bool :=
+  ((from <=? Z.of_N (q_seq q)) && (Z.of_N (q_seq q) <=? to))%Z.
+
+Lemma filter_none {A} (P : A -> bool) l : (forall x, In x l -> P x = false) -> filter P l = [].
+Proof. induction l as [|x l IH]; simpl; intros H; [reflexivity|]. rewrite (H x) by auto. apply IH; auto. Qed.
+Lemma filter_all {A} (P : A -> bool) l : (forall x, In x l -> P x = true) -> filter P l = l.
+Proof. induction l as [|x l IH]; simpl; intros H; [reflexivity|]. rewrite (H x) by auto. f_equal; apply IH; auto. Qed.
+
+Lemma in_nth_error {A} (x : A) l : In x l -> exists j, (j < length l)%nat /\ nth_error l j = Some x.
+Proof.
+  intros H. apply In_nth_error in H. destruct H as [j Hj]. exists j; split; [|exact Hj].
+  apply nth_error_Some. congruence.
+Qed.
+
+(* on a list of consecutive sequence numbers the entries of a range are a contiguous block *)
+Lemma filter_consec os l from to k n :
+  consec os l -> (0 <= k)%nat -> (k + n <= length l)%nat ->
+  (forall j, (j < length l)%nat -> (from <= os + Z.of_nat j <= to)%Z <-> (k <= j < k + n)%nat) ->
+  filter (in_range from to) l = firstn n (skipn k l).
+Proof.
+  intros Hc _ Hkn Hiff.
+  rewrite <- (firstn_skipn k l) at 1. rewrite filter_app.
+  rewrite <- (firstn_skipn n (skipn k l)) at 1. rewrite filter_app.
+  rewrite (filter_none _ (firstn k l)), (filter_all _ (firstn n (skipn k l))), (filter_none _ (skipn n (skipn k l))).
+  - simpl. rewrite app_nil_r. reflexivity.
+  - intros x Hx. apply in_nth_error in Hx. destruct Hx as (j & Hj & Hn).
+    rewrite skipn_length, skipn_length in Hj. rewrite nth_error_skipn, nth_error_skipn in Hn.
+    pose proof (Hc _ _ Hn) as Hs. unfold in_range.
+    specialize (Hiff (k + (n + j))%nat ltac:(lia)). lia.
+  - intros x Hx. apply in_nth_error in Hx. destruct Hx as (j & Hj & Hn).
+    rewrite firstn_length, skipn_length in Hj.
+    rewrite nth_error_firstn in Hn by lia. rewrite nth_error_skipn in Hn.
+    pose proof (Hc _ _ Hn) as Hs. unfold in_range.
+    specialize (Hiff (k + j)%nat ltac:(lia)). lia.
+  - intros x Hx. apply in_nth_error in Hx. destruct Hx as (j & Hj & Hn).
+    rewrite firstn_length in Hj. rewrite nth_error_firstn in Hn by lia.
+    pose proof (Hc _ _ Hn) as Hs. unfold in_range.
+    specialize (Hiff j ltac:(lia)). lia.
+Qed.
+
+Lemma skipn_cons_nth {A} m (l : list A) q : nth_error l m = Some q -> skipn m l = q :: skipn (S m) l.
+Proof. revert l; induction m; intros [|y r] E; simpl in *; try discriminate. inversion E; reflexivity. apply IHm; exact E. Qed.
+
+(* ---------- Range ---------- *)
+Lemma to_int_id z : (- two63 <= z < two63)%Z -> to_int z = z.
+Proof. unfold to_int, two63, two64. intros H. destruct (Z.ltb_spec (z mod 18446744073709551616) 9223372036854775808); lia. Qed.
+
+Lemma oldest_idx_eq c b l : ring_inv c b l -> oldest_idx b = ((r_head b + c - length l) mod c)%nat.
+Proof. intros (Hcap & _ & _ & _ & Hsz & _). unfold oldest_idx. rewrite Hcap, Hsz. reflexivity. Qed.
+
+Lemma oldest_entry c b l q0 l' : ring_inv c b l -> l = q0 :: l' -> entry_seq b (oldest_idx b) = Ok (q_seq q0).
+Proof.
+  intros H ->. rewrite (oldest_idx_eq _ _ _ H). destruct H as (_ & _ & _ & _ & _ & _ & Hnth).
+  specialize (Hnth 0%nat ltac:(simpl; lia)). rewrite Nat.add_0_r in Hnth. unfold entry_seq. rewrite Hnth. reflexivity.
+Qed.
+
+Lemma collect_spec c b l : ring_inv c b l -> (Z.of_nat c <= max_make)%Z ->
+  forall n k i, (k + i + n <= length l)%nat ->
+  collect b (Z.of_nat (oldest_idx b) + Z.of_nat k) i n = Ok (map Some (firstn n (skipn (k + i) l))).
+Proof.
+  intros H Hc. pose proof (oldest_idx_eq _ _ _ H) as Ho.
+  destruct H as (Hcap & Hc0 & Hlen & Hh & Hsz & Hle & Hnth).
+  induction n as [|n IH]; intros k i Hk; [reflexivity|].
+  cbn [collect]. rewrite Hcap.
+  set (x := (oldest_idx b + (k + i))%nat).
+  assert (Hx : (Z.of_nat (oldest_idx b) + Z.of_nat k + Z.of_nat i = Z.of_nat x)%Z) by (unfold x; lia).
+  rewrite Hx.
+  assert (Hob : (oldest_idx b < c)%nat) by (rewrite Ho; apply Nat.mod_upper_bound; lia).
+  unfold max_make in Hc.
+  rewrite to_int_id by (unfold two63; lia).
+  rewrite Z.rem_mod_nonneg by lia. rewrite <- Nat2Z.inj_mod.
+  destruct (Z.ltb_spec (Z.of_nat (x mod c)) 0); [lia|]. rewrite Nat2Z.id.
+  assert (Hi : (x mod c = (r_head b + c - length l + (k + i)) mod c)%nat).
+  { unfold x. rewrite Ho. rewrite Nat.add_mod_idemp_l by lia. reflexivity. }
+  rewrite Hi, Hnth by lia.
+  destruct (nth_error l (k + i)) as [q|] eqn:Eq; [|apply nth_error_None in Eq; lia].
+  rewrite nth_error_map, Eq. simpl.
+  replace (k + S i)%nat with (k + i + 1)%nat in IH by lia.
+  specialize (IH k (S i) ltac:(lia)). rewrite IH.
+  assert (Hs : skipn (k + i) l = q :: skipn (k + S i) l).
+  { replace (k + S i)%nat with (S (k + i)) by lia. apply skipn_cons_nth, Eq. }
+  rewrite Hs. reflexivity.
+Qed.
+
+Lemma collect_block c b l so cnt : ring_inv c b l -> (Z.of_nat c <= max_make)%Z ->
+  (0 <= so)%Z -> (0 <= cnt)%Z -> (so + cnt <= Z.of_nat (length l))%Z ->
+  collect b (Z.of_nat (oldest_idx b) + so) 0 (Z.to_nat cnt) =
+  Ok (map Some (firstn (Z.to_nat cnt) (skipn (Z.to_nat so) l))).
+Proof.
+  intros H Hc Hso Hcnt Hle.
+  pose proof (collect_spec c b l H Hc (Z.to_nat cnt) (Z.to_nat so) 0%nat ltac:(lia)) as G.
+  rewrite Z2Nat.id in G by lia. rewrite Nat.add_0_r in G. exact G.
+Qed.
+
+Lemma range_empty os l from to :
+  consec os l -> (forall j, (j < length l)%nat -> ~ (from <= os + Z.of_nat j <= to)%Z) ->
+  filter (in_range from to) l = [].
+Proof.
+  intros Hc H. rewrite (filter_consec os l from to 0 0 Hc); [reflexivity|lia|lia|].
+  intros j Hj. split; [intros G; exfalso; exact (H j Hj G)|lia].
+Qed.
+
+Lemma range_block os l from to so cnt :
+  consec os l -> (0 <= so)%Z -> (0 <= cnt)%Z -> (so + cnt <= Z.of_nat (length l))%Z ->
+  (forall j, (j < length l)%nat -> (from <= os + Z.of_nat j <= to)%Z <-> (so <= Z.of_nat j < so + cnt)%Z) ->
+  filter (in_range from to) l = firstn (Z.to_nat cnt) (skipn (Z.to_nat so) l).
+Proof.
+  intros Hc Hso Hcnt Hle H. apply (filter_consec os); try assumption; try lia.
+  intros j Hj. rewrite (H j Hj). lia.
+Qed.
+
+(* what the code does today is exact as long as every number involved is below 2^63 *)
+Lemma range_def_exact c b l os from to :
+  ring_inv c b l -> (Z.of_nat c <= max_make)%Z -> consec os l ->
+  (1 <= os)%Z -> (os + Z.of_nat (length l) <= two63)%Z ->
+  (0 <= from < two63)%Z -> (0 <= to < two63)%Z ->
+  range_def b from to = Ok (map Some (filter (in_range from to) l)).
+Proof.
+  intros H Hc Hcs Hos Hmax Hf Ht.
+  pose proof H as (Hcap & Hc0 & Hlen & Hh & Hsz & Hle & Hnth).
+  unfold range_def. rewrite Hsz.
+  destruct l as [|q0 l'].
+  { reflexivity. }
+  replace (length (q0 :: l') =? 0)%nat with false by reflexivity.
+  rewrite (oldest_entry c b (q0 :: l') q0 l' H eq_refl).
+  assert (Hq0 : Z.of_N (q_seq q0) = os) by (rewrite (Hcs 0%nat q0 eq_refl); lia).
+  rewrite Hq0. set (n := length (q0 :: l')) in *.
+  unfold two63, max_make in *.
+  set (from' := if (from <? os)%Z then os else from).
+  assert (Hf' : (from' = Z.max from os)%Z) by (unfold from'; destruct (Z.ltb_spec from os); lia).
+  rewrite (to_int_id (from' - os)) by (unfold two63; lia).
+  rewrite (to_int_id (to - from')) by (unfold two63; lia).
+  rewrite (to_int_id (to - from' + 1)) by (unfold two63; lia).
+  rewrite (to_int_id (from' - os + (to - from' + 1))) by (unfold two63; lia).
+  destruct (Z.gtb_spec (from' - os + (to - from' + 1)) (Z.of_nat n)) as [Hgt|Hgt].
+  - (* the range runs past the newest entry: clamp *)
+    rewrite (to_int_id (Z.of_nat n - (from' - os))) by (unfold two63; lia).
+    destruct (Z.leb_spec (Z.of_nat n - (from' - os)) 0) as [Hz|Hz].
+    + rewrite (range_empty os); [reflexivity|exact Hcs|]. intros j Hj. fold n in Hj. lia.
+    + destruct (Z.ltb_spec 35184372088832 (Z.of_nat n - (from' - os))); [lia|].
+      rewrite (collect_block c b (q0 :: l')) by (try assumption; fold n; unfold max_make; lia).
+      rewrite (range_block os _ from to (from' - os) (Z.of_nat n - (from' - os))); try assumption; try (fold n; lia);
+        try reflexivity; try (intros j Hj; fold n in Hj; lia).
+  - destruct (Z.leb_spec (to - from' + 1) 0) as [Hz|Hz].
+    + rewrite (range_empty os); [reflexivity|exact Hcs|]. intros j Hj. fold n in Hj. lia.
+    + destruct (Z.ltb_spec 35184372088832 (to - from' + 1)); [lia|].
+      rewrite (collect_block c b (q0 :: l')) by (try assumption; fold n; unfold max_make; lia).
+      rewrite (range_block os _ from to (from' - os) (to - from' + 1)); try assumption; try (fold n; lia);
+        try reflexivity; try (intros j Hj; fold n in Hj; lia).
+Qed.
+
+(* the repaired Range is exact for every uint64 bound *)
+Lemma range_rep_exact c b l os from to :
+  ring_inv c b l -> (Z.of_nat c <= max_make)%Z -> consec os l ->
+  (0 <= os)%Z -> (os + Z.of_nat (length l) <= two64)%Z ->
+  (0 <= from < two64)%Z -> (0 <= to < two64)%Z ->
+  range_rep b from to = Ok (map Some (filter (in_range from to) l)).
+Proof.
+  intros H Hc Hcs Hos Hmax Hf Ht.
+  pose proof H as (Hcap & Hc0 & Hlen & Hh & Hsz & Hle & Hnth).
+  unfold range_rep. rewrite Hsz.
+  destruct l as [|q0 l'].
+  { reflexivity. }
+  replace (length (q0 :: l') =? 0)%nat with false by reflexivity.
+  rewrite (oldest_entry c b (q0 :: l') q0 l' H eq_refl).
+  assert (Hq0 : Z.of_N (q_seq q0) = os) by (rewrite (Hcs 0%nat q0 eq_refl); lia).
+  rewrite Hq0. set (n := length (q0 :: l')) in *.
+  assert (Hn : (1 <= n)%nat) by (unfold n; simpl; lia).
+  unfold two64, max_make in *.
+  assert (Hns : wrap64 (os + Z.of_nat (n - 1)) = (os + Z.of_nat n - 1)%Z).
+  { unfold wrap64, two64. rewrite Z.mod_small by lia. lia. }
+  rewrite Hns.
+  set (from' := if (from <? os)%Z then os else from).
+  assert (Hf' : (from' = Z.max from os)%Z) by (unfold from'; destruct (Z.ltb_spec from os); lia).
+  set (to' := if (to >? os + Z.of_nat n - 1)%Z then (os + Z.of_nat n - 1)%Z else to).
+  assert (Ht' : (to' = Z.min to (os + Z.of_nat n - 1))%Z) by (unfold to'; destruct (Z.gtb_spec to (os + Z.of_nat n - 1)); lia).
+  destruct (Z.gtb_spec from' to') as [Hgt|Hgt].
+  - rewrite (range_empty os); [reflexivity|exact Hcs|]. intros j Hj. fold n in Hj. lia.
+  - rewrite (to_int_id (from' - os)) by (unfold two63; lia).
+    rewrite (to_int_id (to' - from')) by (unfold two63; lia).
+    rewrite (to_int_id (to' - from' + 1)) by (unfold two63; lia).
+    destruct (Z.leb_spec (to' - from' + 1) 0); [lia|].
+    destruct (Z.ltb_spec 35184372088832 (to' - from' + 1)); [lia|].
+    rewrite (collect_block c b (q0 :: l')) by (try assumption; fold n; unfold max_make; lia).
+    rewrite (range_block os _ from to (from' - os) (to' - from' + 1)); try assumption; try (fold n; lia);
+      try reflexivity; try (intros j Hj; fold n in Hj; lia).
+Qed.
+
+(* ---------- top-level statements about Range on a ring filled by Push ---------- *)
+Lemma pushed_ring_inv cap qs : (0 < cap)%Z ->
+  ring_inv (Z.to_nat cap) (fold_left push qs (new_ring cap)) (skipn (length qs - Z.to_nat cap) qs).
+Proof.
+  intros H. rewrite <- retained_is_suffix by lia. apply pushes_inv, new_ring_inv, H.
+Qed.
+
+Lemma backlog_range_repaired cap qs first from to :
+  (0 < cap <= max_make)%Z -> consec first qs -> (0 <= first)%Z -> (first + Z.of_nat (length qs) <= two64)%Z ->
+  (0 <= from < two64)%Z -> (0 <= to < two64)%Z ->
+  range repaired (fold_left push qs (new_ring cap)) from to =
+  Ok (map Some (filter (in_range from to) (skipn (length qs - Z.to_nat cap) qs))).
+Proof.
+  intros Hc Hcs Hf Hm Hfr Hto. unfold range; simpl.
+  apply (range_rep_exact (Z.to_nat cap) _ _ (first + Z.of_nat (length qs - Z.to_nat cap))).
+  - apply pushed_ring_inv; lia.
+  - lia.
+  - apply consec_skipn, Hcs.
+  - lia.
+  - rewrite skipn_length. lia.
+  - exact Hfr.
+  - exact Hto.
+Qed.
+
+Lemma backlog_range_today cap qs first from to :
+  (0 < cap <= max_make)%Z -> consec first qs -> (1 <= first)%Z -> (first + Z.of_nat (length qs) <= two63)%Z ->
+  (0 <= from < two63)%Z -> (0 <= to < two63)%Z ->
+  range defective (fold_left push qs (new_ring cap)) from to =
+  Ok (map Some (filter (in_range from to) (skipn (length qs - Z.to_nat cap) qs))).
+Proof.
+  intros Hc Hcs Hf Hm Hfr Hto. unfold range; simpl.
+  apply (range_def_exact (Z.to_nat cap) _ _ (first + Z.of_nat (length qs - Z.to_nat cap))).
+  - apply pushed_ring_inv; lia.
+  - lia.
+  - apply consec_skipn, Hcs.
+  - lia.
+  - rewrite skipn_length. lia.
+  - exact Hfr.
+  - exact Hto.
+Qed.
+
+(* ================================================================== *)
+(* 2. sender: the stream and the backlog                               *)
+(* ================================================================== *)
+Section AssocFacts.
+  Context {K V : Type} (eqb : K -> K -> bool) (eqb_eq : forall a b, eqb a b = true <-> a = b).
+  Lemma eqb_refl' a : eqb a a = true. Proof. apply eqb_eq; reflexivity. Qed.
+  Lemma eqb_neq a b : a <> b -> eqb a b = false.
+  Proof. intros H. destruct (eqb a b) eqn:E; [apply eqb_eq in E; contradiction|reflexivity]. Qed.
+  Lemma aget_aset k k' (v : V) l : aget eqb k' (aset eqb k v l) = if eqb k' k then Some v else aget eqb k' l.
+  Proof.
+    induction l as [|[k0 v0] r IH]; simpl.
+    - destruct (eqb k' k); reflexivity.
+    - destruct (eqb k k0) eqn:E; simpl.
+      + apply eqb_eq in E; subst k0. destruct (eqb k' k); reflexivity.
+      + destruct (eqb k' k0) eqn:E2.
+        * apply eqb_eq in E2; subst k0. rewrite (eqb_neq k' k); [reflexivity|].
+          intros ->. rewrite eqb_refl' in E. discriminate.
+        * exact IH.
+  Qed.
+  Lemma aget_adel k k' (l : list (K * V)) : aget eqb k' (adel eqb k l) = if eqb k' k then None else aget eqb k' l.
+  Proof.
+    induction l as [|[k0 v0] r IH]; simpl.
+    - destruct (eqb k' k); reflexivity.
+    - destruct (eqb k k0) eqn:E; simpl.
+      + apply eqb_eq in E; subst k0. rewrite IH. destruct (eqb k' k); reflexivity.
+      + destruct (eqb k' k0) eqn:E2.
+        * apply eqb_eq in E2; subst k0. rewrite (eqb_neq k' k); [reflexivity|].
+          intros ->. rewrite eqb_refl' in E. discriminate.
+        * exact IH.
+  Qed.
+End AssocFacts.
+
+Lemma keyeqb_eq a b : keyeqb a b = true <-> a = b.
+Proof.
+  destruct a as [a1 a2], b as [b1 b2]; unfold keyeqb; simpl.
+  rewrite andb_true_iff, !N.eqb_eq. split; [intros [-> ->]; reflexivity|intros H; inversion H; auto].
+Qed.
+
+Lemma map_aset {K V W} (eqb : K -> K -> bool) (f : V -> W) k v l :
+  map (fun kv => (fst kv, f (snd kv))) (aset eqb k v l) = aset eqb k (f v) (map (fun kv => (fst kv, f (snd kv))) l).
+Proof. induction l as [|[k0 v0] r IH]; simpl; [reflexivity|]. destruct (eqb k k0); simpl; [reflexivity|f_equal; exact IH]. Qed.
+Lemma map_adel {K V W} (eqb : K -> K -> bool) (f : V -> W) k (l : list (K * V)) :
+  map (fun kv => (fst kv, f (snd kv))) (adel eqb k l) = adel eqb k (map (fun kv => (fst kv, f (snd kv))) l).
+Proof. induction l as [|[k0 v0] r IH]; simpl; [reflexivity|]. destruct (eqb k k0); simpl; [exact IH|f_equal; exact IH]. Qed.
+
+Definition act_of (rel : bool) : action := if rel then ADelete else AUpdate.
+(* the stream of one SRG: sequence numbers seq+1, seq+2, ... *)
+Fixpoint reqs_from (g seq : N) (evs : list (session * bool)) : list req :=
+  match evs with
+  | [] => []
+  | (s, rel) :: t => mkreq g (seq + 1) (act_of rel) (s2c s) :: reqs_from g (seq + 1) t
+  end.
+
+Lemma reqs_from_length g seq evs : length (reqs_from g seq evs) = length evs.
+Proof. revert seq; induction evs as [|[s r] t IH]; simpl; intros; [reflexivity|f_equal; apply IH]. Qed.
+
+Lemma reqs_from_nth g evs : forall seq j q, nth_error (reqs_from g seq evs) j = Some q ->
+  q_srg q = g /\ q_seq q = (seq + N.of_nat (S j))%N /\
+  exists s rel, nth_error evs j = Some (s, rel) /\ q_act q = act_of rel /\ q_cp q = s2c s.
+Proof.
+  induction evs as [|[s r] t IH]; intros seq [|j] q H; simpl in *; try discriminate.
+  - inversion H; subst; simpl. repeat split; try lia. exists s, r; auto.
+  - destruct (IH _ _ _ H) as (A & B & C). repeat split; auto. lia.
+Qed.
+
+Lemma reqs_from_consec g seq evs : consec (Z.of_N seq + 1) (reqs_from g seq evs).
+Proof. intros j q H. destruct (reqs_from_nth _ _ _ _ _ H) as (_ & B & _). lia. Qed.
+
+Lemma sender_run_shape g evs : forall sn seq b,
+  g <> 0%N -> aget N.eqb g sn = Some (seq, b) -> (forall e, In e evs -> s_srg (fst e) = g) ->
+  (seq + N.of_nat (length evs) < n64)%N ->
+  snd (sender_run sn evs) = reqs_from g seq evs /\
+  aget N.eqb g (fst (sender_run sn evs)) = Some ((seq + N.of_nat (length evs))%N, fold_left push (reqs_from g seq evs) b).
+Proof.
+  induction evs as [|[s rel] t IH]; intros sn seq b Hg Hget Hall Hlt.
+  - simpl. rewrite N.add_0_r. auto.
+  - simpl. assert (Hs : s_srg s = g) by (apply (Hall (s, rel)); left; reflexivity).
+    unfold sender_event. rewrite Hs. destruct (N.eqb_spec g 0); [contradiction|]. rewrite Hget.
+    assert (Hseq : n64z (seq + 1) = (seq + 1)%N).
+    { unfold n64z. apply N.mod_small. simpl length in Hlt. lia. }
+    rewrite Hseq.
+    specialize (IH (aset N.eqb g ((seq + 1)%N, push b (mkreq g (seq + 1) (if rel then ADelete else AUpdate) (s2c s))) sn)
+                   (seq + 1)%N (push b (mkreq g (seq + 1) (if rel then ADelete else AUpdate) (s2c s))) Hg).
+    rewrite (aget_aset N.eqb N.eqb_eq), N.eqb_refl in IH.
+    specialize (IH eq_refl (fun e He => Hall e (or_intror He)) ltac:(simpl length in Hlt; lia)).
+    destruct (sender_run _ t) as [sn2 l]. simpl in *. destruct IH as [IH1 IH2]. split.
+    + rewrite IH1. reflexivity.
+    + rewrite IH2. f_equal. f_equal. lia.
+Qed.
+
+(* ================================================================== *)
+(* 3. receiver: convergence of the replicated store (repaired)         *)
+(* ================================================================== *)
+Lemma cp_key_s2c s : cp_key (s2c s) = sess_key s.
+Proof. unfold cp_key, sess_key, s2c. destruct (s_kind s); reflexivity. Qed.
+
+Lemma recv_update_last fl rc c : rc_last (recv_update fl rc c) = rc_last rc.
 Proof. reflexivity. Qed.
+Lemma recv_delete_last fl rc c : rc_last (recv_delete fl rc c) = rc_last rc.
+Proof. reflexivity. Qed.
+
+Lemma recv_step_applied fl rc q : (last_of rc (q_srg q) < q_seq q)%N ->
+  recv_step fl rc q =
+  let rc1 := mkrecv (aset N.eqb (q_srg q) (q_seq q) (rc_last rc)) (rc_store rc) (rc_reg rc) in
+  match q_act q with ADelete => recv_delete fl rc1 (q_cp q) | _ => recv_update fl rc1 (q_cp q) end.
+Proof.
+  intros H. unfold recv_step. destruct (N.leb_spec (q_seq q) (last_of rc (q_srg q))); [lia|].
+  rewrite andb_false_r. reflexivity.
+Qed.
+
+Lemma recv_step_stale rc q : (q_seq q <= last_of rc (q_srg q))%N -> recv_step repaired rc q = rc.
+Proof. intros H. unfold recv_step. simpl. destruct (N.leb_spec (q_seq q) (last_of rc (q_srg q))); [reflexivity|lia]. Qed.
+
+Lemma last_of_step fl rc q : (last_of rc (q_srg q) < q_seq q)%N -> last_of (recv_step fl rc q) (q_srg q) = q_seq q.
+Proof.
+  intros H. rewrite recv_step_applied by exact H. cbv zeta.
+  unfold last_of. destruct (q_act q); simpl; rewrite (aget_aset N.eqb N.eqb_eq), N.eqb_refl; reflexivity.
+Qed.
+
+Definition live_fold (live : list ((N * N) * session)) (evs : list (session * bool)) :=
+  fold_left (fun l e => live_step l (fst e) (snd e)) evs live.
+
+Lemma store_step_event fl rc g seq s rel live :
+  last_of rc g = seq -> rc_store rc = expected_store live ->
+  let rc' := recv_step fl rc (mkreq g (seq + 1) (act_of rel) (s2c s)) in
+  rc_store rc' = expected_store (live_step live s rel) /\ last_of rc' g = (seq + 1)%N.
+Proof.
+  intros Hl Hs. cbv zeta. split.
+  - rewrite recv_step_applied by (simpl; lia). cbv zeta. simpl q_act. simpl q_cp.
+    unfold live_step, expected_store. destruct rel; simpl.
+    + rewrite map_adel. rewrite cp_key_s2c. fold (expected_store live). rewrite <- Hs. reflexivity.
+    + rewrite map_aset. rewrite cp_key_s2c. fold (expected_store live). rewrite <- Hs. reflexivity.
+  - apply (last_of_step fl rc (mkreq g (seq + 1) (act_of rel) (s2c s))). simpl. lia.
+Qed.
+
+Lemma recv_run_cons fl rc q l : recv_run fl rc (q :: l) = recv_run fl (recv_step fl rc q) l.
+Proof. reflexivity. Qed.
+
+Lemma store_inorder fl g evs : forall seq rc live,
+  last_of rc g = seq -> rc_store rc = expected_store live ->
+  rc_store (recv_run fl rc (reqs_from g seq evs)) = expected_store (live_fold live evs) /\
+  last_of (recv_run fl rc (reqs_from g seq evs)) g = (seq + N.of_nat (length evs))%N.
+Proof.
+  induction evs as [|[s rel] t IH]; intros seq rc live Hl Hs.
+  - simpl. rewrite N.add_0_r. auto.
+  - cbn [reqs_from]. rewrite recv_run_cons.
+    destruct (store_step_event fl rc g seq s rel live Hl Hs) as [A B].
+    destruct (IH _ _ _ B A) as [C D]. split; [exact C|]. rewrite D. simpl length. lia.
+Qed.
+
+(* any in-order delivery with duplicates has the effect of the in-order stream *)
+Lemma delivery_le reqs m d m' : delivery reqs m d m' -> (m <= m')%nat.
+Proof. induction 1; lia. Qed.
+
+Lemma delivery_effect g reqs m d m' :
+  delivery reqs m d m' ->
+  (forall j q, nth_error reqs j = Some q -> q_srg q = g /\ q_seq q = N.of_nat (S j)) ->
+  forall rc, last_of rc g = N.of_nat m ->
+  recv_run repaired rc d = recv_run repaired rc (firstn (m' - m) (skipn m reqs)).
+Proof.
+  intros Hd Hshape. induction Hd as [m|m q d m' Hq Hd IH|m k q d m' Hk Hq Hd IH]; intros rc Hl.
+  - rewrite Nat.sub_diag. reflexivity.
+  - pose proof (delivery_le _ _ _ _ Hd) as Hle.
+    rewrite (skipn_cons_nth m reqs q Hq). replace (m' - m)%nat with (S (m' - S m)) by lia.
+    cbn [firstn]. rewrite !recv_run_cons.
+    apply IH. destruct (Hshape _ _ Hq) as [A B]. rewrite <- A. rewrite last_of_step; [exact B|]. rewrite A, Hl, B. lia.
+  - rewrite recv_run_cons.
+    destruct (Hshape _ _ Hq) as [A B]. rewrite recv_step_stale by (rewrite A, Hl, B; lia).
+    apply IH, Hl.
+Qed.
+
+Lemma stream_of_sender cap g evs :
+  g <> 0%N -> (forall e, In e evs -> s_srg (fst e) = g) -> (N.of_nat (length evs) < n64)%N ->
+  snd (sender_run [(g, (0%N, new_ring cap))] evs) = reqs_from g 0 evs /\
+  aget N.eqb g (fst (sender_run [(g, (0%N, new_ring cap))] evs)) =
+    Some (N.of_nat (length evs), fold_left push (reqs_from g 0 evs) (new_ring cap)).
+Proof.
+  intros Hg Hall Hlt.
+  apply (sender_run_shape g evs [(g, (0%N, new_ring cap))] 0%N (new_ring cap) Hg); auto.
+  simpl. rewrite N.eqb_refl. reflexivity.
+Qed.
+
+Lemma stream_shape g evs j q : nth_error (reqs_from g 0 evs) j = Some q -> q_srg q = g /\ q_seq q = N.of_nat (S j).
+Proof. intros H. destruct (reqs_from_nth _ _ _ _ _ H) as (A & B & _). split; [exact A|]. rewrite B. lia. Qed.
+
+Lemma delivered_is_inorder g evs d rc :
+  last_of rc g = 0%N ->
+  delivery (reqs_from g 0 evs) 0 d (length (reqs_from g 0 evs)) ->
+  recv_run repaired rc d = recv_run repaired rc (reqs_from g 0 evs).
+Proof.
+  intros Hl Hd.
+  rewrite (delivery_effect g _ _ _ _ Hd (stream_shape g evs) rc Hl).
+  rewrite Nat.sub_0_r. simpl skipn. rewrite firstn_all. reflexivity.
+Qed.
+
+Lemma converges_store g0 cap g evs d :
+  g <> 0%N -> (forall e, In e evs -> s_srg (fst e) = g) -> (N.of_nat (length evs) < n64)%N ->
+  let reqs := snd (sender_run [(g, (0%N, new_ring cap))] evs) in
+  delivery reqs 0 d (length reqs) ->
+  rc_store (recv_run repaired (mkrecv [] [] g0) d) = expected_store (live_run evs) /\
+  last_of (recv_run repaired (mkrecv [] [] g0) d) g = N.of_nat (length evs).
+Proof.
+  intros Hg Hall Hlt reqs Hd. unfold reqs in *.
+  destruct (stream_of_sender cap g evs Hg Hall Hlt) as [E _]. rewrite E in Hd.
+  rewrite (delivered_is_inorder g evs d (mkrecv [] [] g0) eq_refl Hd).
+  destruct (store_inorder repaired g evs 0%N (mkrecv [] [] g0) [] eq_refl eq_refl) as [A B].
+  split; [exact A|]. rewrite B. lia.
+Qed.
+
+Lemma sender_backlog_exact cap g evs from to :
+  g <> 0%N -> (forall e, In e evs -> s_srg (fst e) = g) -> (N.of_nat (length evs) < n64)%N ->
+  (0 < cap <= max_make)%Z -> (0 <= from < two64)%Z -> (0 <= to < two64)%Z ->
+  exists seq b, aget N.eqb g (fst (sender_run [(g, (0%N, new_ring cap))] evs)) = Some (seq, b) /\
+    seq = N.of_nat (length evs) /\
+    range repaired b from to =
+      Ok (map Some (filter (in_range from to)
+            (skipn (length evs - Z.to_nat cap) (snd (sender_run [(g, (0%N, new_ring cap))] evs))))).
+Proof.
+  intros Hg Hall Hlt Hc Hf Ht.
+  destruct (stream_of_sender cap g evs Hg Hall Hlt) as [E1 E2].
+  eexists _, _. split; [exact E2|]. split; [reflexivity|]. rewrite E1.
+  rewrite <- (reqs_from_length g 0 evs).
+  apply (backlog_range_repaired cap _ 1); try assumption; try lia.
+  - apply (reqs_from_consec g 0 evs).
+  - rewrite reqs_from_length. unfold two64. unfold n64 in Hlt. lia.
+Qed.
+
+Lemma checkpoint_identity s :
+  let c := s2c s in
+  c_sid c = s_sid s /\ c_srg c = s_srg s /\ c_mac c = s_mac s /\ c_ov c = s_ov s /\ c_iv c = s_iv s /\
+  c_user c = s_user s /\ cp_key c = sess_key s /\
+  (s_kind s <> KL2GW ->
+     c_v4 c = s_v4 s /\ c_v6 c = s_v6 s /\ c_v4pool c = s_v4pool s /\ c_napool c = s_napool s /\ c_vrf c = s_vrf s /\
+     c_pd c = match s_pd s with Some p => parse_cidr p | None => None end) /\
+  (s_kind s = KL2GW -> c_v4 c = None /\ c_v6 c = None /\ c_pd c = None).
+Proof.
+  cbv zeta. pose proof (cp_key_s2c s) as K. unfold s2c in *.
+  destruct (s_kind s); simpl; repeat split; auto; try congruence.
+Qed.
